@@ -56,11 +56,22 @@ def source(spec):
     return "\n".join(lines) + "\n"
 
 
+class InvalidCase(Exception):
+    pass
+
+
 def build(spec):
     name = f"c19_synth_{next(_n)}"
     mod = types.ModuleType(name)
     sys.modules[name] = mod
-    exec(compile(source(spec), name, "exec"), mod.__dict__)
+    try:
+        exec(compile(source(spec), name, "exec"), mod.__dict__)
+    except (TypeError, ValueError) as e:
+        # the plain dataclass definitions themselves are rejected by dataclasses (a required field after a default, ...):
+        # not a case.  (Only this step may be skipped - a failure of slotted() below is always a failure.)
+        if "slotted" not in "".join(__import__("traceback").format_exception(e)):
+            raise InvalidCase(str(e)) from None
+        raise
     cname = spec.get("name", "Model")
     P, S0 = getattr(mod, "P" + cname), getattr(mod, "S" + cname)
     from typelib.py import classes
@@ -99,10 +110,9 @@ def run_case(spec):
         warnings.simplefilter("ignore")
         try:
             mod, P, S0, S = build(spec)
+        except InvalidCase:
+            return None
         except Exception as e:
-            # a combination dataclasses itself rejects (e.g. a required field after a default) is not a valid case
-            if "P" + spec.get("name", "Model") not in str(e) and isinstance(e, (TypeError, ValueError)) and "slotted" not in str(e) and "slots" not in str(e).lower():
-                return None
             return f"decorating raised {type(e).__name__}: {e}"[:300]
         bad = []
         flags = spec.get("flags", {})
@@ -114,9 +124,12 @@ def run_case(spec):
         # dataclasses.fields order for own names (re-declared inherited fields keep the base position but are still "fields")
         all_fields = [f.name for f in dataclasses.fields(S)]
         want = [f for f in all_fields if f not in inherited]
-        if spec.get("dict", False) and "__dict__" not in inherited:
+        # a base without __slots__ already provides both (dictoffset / weakrefoffset): no slot may be added for them
+        base_dict = any(getattr(b, "__dictoffset__", 0) != 0 for b in S.__bases__)
+        base_weak = any(getattr(b, "__weakrefoffset__", 0) != 0 for b in S.__bases__)
+        if spec.get("dict", False) and "__dict__" not in inherited and not base_dict:
             want.append("__dict__")
-        if spec.get("weakref", True) and "__weakref__" not in inherited:
+        if spec.get("weakref", True) and "__weakref__" not in inherited and not base_weak:
             want.append("__weakref__")
         if tuple(S.__slots__) != tuple(want):
             bad.append(f"__slots__ is {S.__slots__!r}, expected {tuple(want)!r}")
@@ -210,8 +223,14 @@ def specs(tier="quick", seed=0):
                     base = {"fields": [["x", "default"], ["b", "default"]], "slotted": slotted_base, "flags": dict(flags), "weakref": False}
                     fields = ([["x", "default"]] if redeclare else []) + [["y", "default"], ["z", "factory"]]
                     for nested in (False, True):
-                        out.append({"fields": fields, "flags": dict(flags), "base": base, "dict": False, "weakref": not slotted_base and False,
+                        out.append({"fields": fields, "flags": dict(flags), "base": base, "dict": False, "weakref": False,
                                     "user_state": user_state, "nested": nested})
+                    # every (dict, weakref) combination on top of a base - slotted or not (an unslotted base already gives its
+                    # instances a __dict__ and a __weakref__: nothing to add then, and nothing to trip over)
+                    for d, w in itertools.product((False, True), repeat=2):
+                        if (d, w) != (False, False):
+                            out.append({"fields": fields, "flags": dict(flags), "base": base, "dict": d, "weakref": w,
+                                        "user_state": user_state, "nested": False})
     count = 150 if tier == "quick" else 3000
     for _ in range(count):
         nf = rnd.randint(0, 5)
@@ -232,7 +251,6 @@ def specs(tier="quick", seed=0):
                 spec["fields"] = [["x", "default"]] + [[f, ("default" if k == "req" else k)] for f, k in spec["fields"]]
             else:
                 spec["fields"] = [[f, ("default" if k == "req" else k)] for f, k in spec["fields"]]
-            spec["weakref"] = False
         out.append(spec)
     return out
 
@@ -257,3 +275,44 @@ def run_recorded(rec):
         return run_case(rec["spec"])
     except Exception as e:
         return f"exercising the slotted class raised {type(e).__name__}: {e}"[:300]
+
+
+def init_false_default_witness():
+    """Known finding C19-init-false-default: the dataclass-generated __init__ of a field(default=..., init=False) relies on the
+    class attribute, which slotted() has to erase (a slot and a class attribute of one name cannot coexist)."""
+    import dataclasses
+    from typelib.py import classes
+
+    @dataclasses.dataclass
+    class C:
+        a: int
+        b: int = dataclasses.field(default=7, init=False)
+    with warnings.catch_warnings():
+        warnings.simplefilter("ignore")
+        S = classes.slotted(C, weakref=False)
+        try:
+            r = repr(S(1))
+        except AttributeError as e:
+            return f"repr(slotted(C)(1)) raised {e!r} for @dataclass C(a: int, b: int = field(default=7, init=False)); the dataclass gives {C(1)!r}"
+    return None if r.endswith("(a=1, b=7)") else f"repr(slotted(C)(1)) == {r}"
+
+
+def zero_arg_super_witness():
+    """Known finding C19-zero-arg-super: methods compiled in the original class body keep its __class__ cell."""
+    import dataclasses
+    from typelib.py import classes
+
+    @dataclasses.dataclass
+    class D:
+        x: int = 0
+
+        def describe(self):
+            return super().__repr__() is not None
+    with warnings.catch_warnings():
+        warnings.simplefilter("ignore")
+        S = classes.slotted(D, weakref=False)
+        try:
+            S().describe()
+        except TypeError as e:
+            return f"slotted(D)().describe() raised {e!r} where D().describe() works (zero-argument super() in a method)"
+    return None
